@@ -43,7 +43,7 @@ def correspondence(rng, tier):
                           'untranslatable': [k for k, v in status.items() if not v]})
     except Exception as ex:
         stale.append({'kind': 'translator-failed', 'detail': repr(ex)})
-    r = fit_a.run_corr(rng, n)
+    r = fit_a.fit_correspondence(rng, tier, n)
     r['mismatches'] = stale + r['mismatches']
     return r
 
@@ -104,6 +104,28 @@ def check_case(c):
     if fit.N != n: bad.append(('N', fit.N, n))
     if not (float(a.df) == float(df) and float(b.df) == float(df)): bad.append(('df', a.df, df))
     if bad: return dict(c, failure='fit differs from the exact least-squares solution', detail=bad)
+    # ---- several predictions from the same fit object: every one keeps the fit's dof, also after later ones
+    if c.get('multi'):
+        if not (noise_ok and math.isfinite(df)): return None
+        res = []
+        for kind, arg, extra in c['multi']:
+            name = '%s.%s' % (type(fit).__name__, kind)
+            try:
+                if kind == 'y_from_x': r = fit.y_from_x(arg) if cls == 'OLS' else fit.y_from_x(arg, extra)
+                else: r = fit.x_from_y(arg) if cls == 'OLS' else fit.x_from_y(arg, extra)
+            except Exception as e:
+                return dict(c, failure='%s raised %s' % (name, type(e).__name__), method=name)
+            res.append((name, r))
+        out = []
+        for i, (name, r) in enumerate(res):
+            if r.u > 0 and not close(r.df, df, 0, 1e-6): out.append(('dof of prediction %d (%s) after all %d predictions' % (i, name, len(res)), r.df, df))
+        for i in range(len(res)):
+            for j in range(i + 1, len(res)):
+                for nm, d in (('difference', res[i][1] - res[j][1]), ('sum', res[i][1] + res[j][1])):
+                    if d.u > 1e-9 * (abs(d.x) + 1e-300) and not close(d.df, df, 0, 1e-6):
+                        out.append(('dof of the %s of predictions %d and %d' % (nm, i, j), d.df, df))
+        if out: return dict(c, failure='predictions from one fit object do not keep the fit\'s dof', detail=out[:6])
+        return None
     # ---- predictions
     p = c.get('pred')
     if p is None: return None
@@ -155,6 +177,17 @@ def rand_case(rng):
     if k < 0.4: c['pred'] = ('y_from_x', round(rng.uniform(-10, 10), 2), extra, lab)
     elif k < 0.8: c['pred'] = ('x_from_y', [round(a0 + b0 * 1.5 + rng.gauss(0, 0.3), 3) for _ in range(rng.randint(1, 4))], extra, lab)
     else: c['pred'] = None
+    if rng.random() < 0.35:
+        # 2-4 predictions with plain-number arguments from the same fit object, x_from_y and y_from_x mixed
+        # (y_from_x of the weighted classes is a known finding: not used here)
+        c['pred'] = None; m = []
+        for _ in range(rng.randint(2, 4)):
+            if cls == 'OLS' and rng.random() < 0.5:
+                m.append(('y_from_x', round(rng.uniform(-10, 10), 2), None))
+            else:
+                m.append(('x_from_y', [round(a0 + b0 * rng.uniform(-3, 3) + rng.gauss(0, 0.3), 3) for _ in range(rng.randint(1, 4))], extra))
+        c['multi'] = m
+        if cls == 'WLS' and c['dof'] is None: c['dof'] = 6
     return c
 
 def is_known(f):
@@ -184,6 +217,7 @@ def replay(payload):
     if f:
         c = {k: f.get(k) for k in ('cls', 'x', 'y', 'w', 'dof')}
         c['pred'] = tuple(f['pred']) if f.get('pred') else None
+        if f.get('multi'): c['multi'] = [tuple(m) for m in f['multi']]
         r = check_case(c)
         print('replayed failing input on the implementation:', 'STILL FAILS %s' % json.dumps({k: r[k] for k in r if k in ('failure', 'detail', 'method')}, default=str) if r else 'passes now')
         return 1 if r else 0
